@@ -199,6 +199,15 @@ class IntervalEval:
             x = self.ev(a[0])
             self.need(x, I64, v, 'TimeSpec %s (i64 nanoseconds)' % op)
             return x
+        if op in ('ts_seconds', 'ts_milliseconds', 'ts_microseconds'):
+            # a TimeSpec built from a count of larger units: its value in nanoseconds
+            x = self.ev(a[0])
+            if x is None:
+                return None
+            k = {'ts_seconds': 10**9, 'ts_milliseconds': 10**6, 'ts_microseconds': 10**3}[op]
+            r = Iv(x.lo * k, x.hi * k)
+            self.need(r, I64, v, 'TimeSpec %s (i64 nanoseconds)' % op)
+            return r
         if op == 'cast':
             x = self.ev(a[0])
             ck, ty = a[1], a[2]
